@@ -1,8 +1,303 @@
 /-
-  C14 — property theorems (only `theorem C14_*` statements and non-vacuity examples live here;
-  helper lemmas go to CedarGoProofs/Lemmas/).
+  C14 — Results are deterministic functions of their inputs.
+
+  Model (CedarGo/Model/Order.lean): every place where the Go code iterates a Go map takes the order in
+  which the map yields its entries as an explicit list argument; "for every iteration order" is "for
+  every permutation of that list" (`List.Perm`), "for every schedule of a whole policy" is `Resched`
+  (the entries of every record literal, at every depth, listed in some other order).
+
+  What holds in full: the decision, the reasons and the erroring policies of `Authorize` are independent
+  of the order in which policies are yielded, of repetitions of a policy in the sequence, of the
+  insertion order of the entity store, of the order in which parents / set members are enumerated, and of
+  the schedule of every record literal; every encoder that sorts what it collected is canonical.
+  What fails (genuine defects of the unchanged code, each with a `_counterexample`): WHICH error a record
+  literal with several erroring entries reports; WHICH non-entity member the message of `in` names; the
+  entry / annotation order of a policy decoded from JSON and printed as Cedar text.
 -/
-import CedarGo.Model.Fold
+import CedarGoProofs.Lemmas.C14
+import CedarGoProofs.Properties.C20
 namespace CedarGo
+
+/-! ### Authorization -/
+
+/-- Policies yielded in another order (any `PolicyIterator`, any Go map order of a `PolicySet`): same
+    decision; same reasons and same errors as multisets — each error with the failing policy's id,
+    position and error kind. -/
+theorem C14_authorize_order_indep (ps₁ ps₂ : List (PolicyID × Policy)) (env : Env) (hp : ps₁.Perm ps₂) :
+    (authorize ps₁ env).allow = (authorize ps₂ env).allow ∧
+    (authorize ps₁ env).reasons.Perm (authorize ps₂ env).reasons ∧
+    (authorize ps₁ env).errors.Perm (authorize ps₂ env).errors :=
+  C02_order_independent compile ps₁ ps₂ env hp
+
+/-- …and of repetition: two sequences with the same members (a policy may be yielded any number of
+    times) give the same decision, the same SET of reasons and the same SET of errors. -/
+theorem C14_authorize_repetition_indep (ps₁ ps₂ : List (PolicyID × Policy)) (env : Env)
+    (hm : ∀ ip, ip ∈ ps₁ ↔ ip ∈ ps₂) :
+    (authorize ps₁ env).allow = (authorize ps₂ env).allow ∧
+    (∀ r, r ∈ (authorize ps₁ env).reasons ↔ r ∈ (authorize ps₂ env).reasons) ∧
+    (∀ e, e ∈ (authorize ps₁ env).errors ↔ e ∈ (authorize ps₂ env).errors) := by
+  have hF : ∀ r, r ∈ satForbids compile env ps₁ ↔ r ∈ satForbids compile env ps₂ := by
+    intro r; simp only [satForbids, List.mem_map, List.mem_filter, hm]
+  have hP : ∀ r, r ∈ satPermits compile env ps₁ ↔ r ∈ satPermits compile env ps₂ := by
+    intro r; simp only [satPermits, List.mem_map, List.mem_filter, hm]
+  have hE : ∀ e, e ∈ errorsOf compile env ps₁ ↔ e ∈ errorsOf compile env ps₂ := by
+    intro e; simp only [errorsOf, List.mem_filterMap, hm]
+  have hFe : (satForbids compile env ps₁).isEmpty = (satForbids compile env ps₂).isEmpty := by
+    cases h1 : satForbids compile env ps₁ with
+    | nil =>
+      cases h2 : satForbids compile env ps₂ with
+      | nil => rfl
+      | cons r rs => have := (hF r).mpr (by simp [h2]); simp [h1] at this
+    | cons r rs =>
+      cases h2 : satForbids compile env ps₂ with
+      | nil => have := (hF r).mp (by simp [h1]); simp [h2] at this
+      | cons r' rs' => rfl
+  unfold authorize
+  refine ⟨?_, ?_, ?_⟩
+  · have h1 := C02_allow_iff compile ps₁ env
+    have h2 := C02_allow_iff compile ps₂ env
+    have e1 : (∃ ip ∈ ps₁, isPermit ip = true ∧ satBy compile env ip = true) ↔ (∃ ip ∈ ps₂, isPermit ip = true ∧ satBy compile env ip = true) := by
+      constructor <;> rintro ⟨ip, hip, h⟩
+      · exact ⟨ip, (hm ip).mp hip, h⟩
+      · exact ⟨ip, (hm ip).mpr hip, h⟩
+    have e2 : (∃ ip ∈ ps₁, isForbid ip = true ∧ satBy compile env ip = true) ↔ (∃ ip ∈ ps₂, isForbid ip = true ∧ satBy compile env ip = true) := by
+      constructor <;> rintro ⟨ip, hip, h⟩
+      · exact ⟨ip, (hm ip).mp hip, h⟩
+      · exact ⟨ip, (hm ip).mpr hip, h⟩
+    have h12 : (authorizeWith compile ps₁ env).allow = true ↔ (authorizeWith compile ps₂ env).allow = true := by
+      rw [h1, h2, e1, e2]
+    cases ha : (authorizeWith compile ps₁ env).allow <;> cases hb : (authorizeWith compile ps₂ env).allow <;> simp_all
+  · intro r
+    rw [C02_reasons_exact, C02_reasons_exact, hFe]
+    split
+    · exact hP r
+    · exact hF r
+  · intro e
+    rw [C02_errors_exact, C02_errors_exact]; exact hE e
+
+/-- The entity store is only read through `Get`: an `EntityMap` holding the same entities inserted in
+    another order gives the very same result (decision, reasons, errors with their kinds). -/
+theorem C14_authorize_entities_order_indep (ps : List (PolicyID × Policy)) (env : Env) (es' : Entities)
+    (hp : env.entities.Perm es') (nd : (env.entities.map (·.1)).Nodup) :
+    authorize ps { env with entities := es' } = authorize ps env := by
+  have hs : SameStore env { env with entities := es' } :=
+    ⟨rfl, rfl, rfl, rfl, fun u => Entities.get_perm hp nd u, hp.length_eq⟩
+  have hb : ∀ p, evalBool (compile p) { env with entities := es' } = evalBool (compile p) env := by
+    intro p; unfold evalBool; rw [eval_sameStore _ env _ hs]
+  unfold authorize authorizeWith
+  have : ∀ acc, ps.foldl (authStep compile { env with entities := es' }) acc = ps.foldl (authStep compile env) acc := by
+    induction ps with
+    | nil => intro acc; rfl
+    | cons ip ps ih =>
+      intro acc
+      simp only [List.foldl_cons]
+      have : authStep compile { env with entities := es' } acc ip = authStep compile env acc ip := by
+        unfold authStep; rw [hb]
+      rw [this, ih]
+  rw [this]
+
+/-- FULL statement (false today): `Resched e e' → eval e env = eval e' env`.
+    Proved: two schedules of the same expression (every record literal's entries enumerated in any
+    order, at every depth) give the same value, and one errors iff the other does.  Missing: the error
+    KIND/message (see `C14_evalRecordLit_order_counterexample`). -/
+theorem C14_eval_schedule_indep_partial (e e' : Expr) (env : Env) (h : Resched e e') :
+    Res.sim (eval e env) (eval e' env) :=
+  eval_resched e e' env h
+
+/-- FULL statement (false today): the errors carry the same kinds/messages under every schedule.
+    Proved: under any two schedules of the policies' record literals the decision, the reasons and the
+    (id, position) of the erroring policies are identical. -/
+theorem C14_authorize_schedule_indep_partial (ps ps' : List (PolicyID × Policy)) (env : Env)
+    (h : ReschedPolicies ps ps') :
+    (authorize ps env).allow = (authorize ps' env).allow ∧
+    (authorize ps env).reasons = (authorize ps' env).reasons ∧
+    (authorize ps env).errors.map (fun x => (x.1, x.2.1)) = (authorize ps' env).errors.map (fun x => (x.1, x.2.1)) := by
+  obtain ⟨hF, hP, hE⟩ := authorize_resched ps ps' env h
+  unfold authorize
+  refine ⟨?_, ?_, ?_⟩
+  · have a1 := C02_loop_exact compile ps env
+    have a2 := C02_loop_exact compile ps' env
+    simp only at a1 a2
+    unfold authorizeWith
+    simp only [a1.1, a1.2.1, a2.1, a2.2.1, hF, hP]
+    split <;> (try split) <;> rfl
+  · rw [C02_reasons_exact, C02_reasons_exact, hF, hP]
+  · rw [C02_errors_exact, C02_errors_exact, hE]
+
+/-! ### Record literals (`recordLiteralEval` ranges over a Go map) -/
+
+/-- what `eval` does on a record literal is `evalRecordLitOrd` on its entry list -/
+theorem C14_evalRecordLit_is_eval (kes : List (String × Expr)) (env : Env) :
+    eval (.record kes) env = evalRecordLitOrd kes env := eval_record_eq_ord kes env
+
+/-- FULL statement (false today): `kes₁.Perm kes₂ → evalRecordLitOrd kes₁ env = evalRecordLitOrd kes₂ env`.
+    Proved: (1) one order errors iff the other does; (2) successful evaluations give the same record;
+    (3) if all erroring entries fail with the same error kind (in particular if at most one entry
+    errors) the two results are equal. -/
+theorem C14_evalRecordLit_order_indep_partial (kes₁ kes₂ : List (String × Expr)) (env : Env)
+    (hp : kes₁.Perm kes₂) (hk : (kes₁.map (·.1)).Nodup) :
+    ((∃ e, evalRecordLitOrd kes₁ env = .error e) ↔ (∃ e, evalRecordLitOrd kes₂ env = .error e)) ∧
+    (∀ v w, evalRecordLitOrd kes₁ env = .ok v → evalRecordLitOrd kes₂ env = .ok w → v = w) ∧
+    ((∀ ke ∈ kes₁, ∀ ke' ∈ kes₁, ∀ e e', eval ke.2 env = .error e → eval ke'.2 env = .error e' → e = e') →
+      evalRecordLitOrd kes₁ env = evalRecordLitOrd kes₂ env) :=
+  evalRecordLitOrd_perm kes₁ kes₂ env hp hk
+
+/-- `{a: 1 + "x", b: context.missing}`: a type error in one order, a missing-attribute error in the other. -/
+theorem C14_evalRecordLit_order_counterexample :
+    ∃ (kes₁ kes₂ : List (String × Expr)) (env : Env), kes₁.Perm kes₂ ∧ (kes₁.map (·.1)).Nodup ∧
+      evalRecordLitOrd kes₁ env ≠ evalRecordLitOrd kes₂ env :=
+  evalRecordLitOrd_perm_counterexample
+
+/-! ### containsAll / containsAny / in -/
+
+theorem C14_containsAll_is_eval (l r : Expr) (env : Env) :
+    eval (.binop .containsAll l r) env =
+      (do let s ← (eval l env).bind toSet; let t ← (eval r env).bind toSet; .ok (.bool (containsAllLoop s t))) :=
+  eval_containsAll_eq_loop l r env
+
+theorem C14_containsAny_is_eval (l r : Expr) (env : Env) :
+    eval (.binop .containsAny l r) env =
+      (do let s ← (eval l env).bind toSet; let t ← (eval r env).bind toSet; .ok (.bool (containsAnyLoop s t))) :=
+  eval_containsAny_eq_loop l r env
+
+/-- the early-exit loop over the right-hand set gives the same answer for every enumeration order of
+    both sets -/
+theorem C14_containsAll_order_indep (s s' t t' : List Value) (hs : s.Perm s') (ht : t.Perm t') :
+    containsAllLoop s t = containsAllLoop s' t' := containsAllLoop_perm s s' t t' hs ht
+
+theorem C14_containsAny_order_indep (s s' t t' : List Value) (hs : s.Perm s') (ht : t.Perm t') :
+    containsAnyLoop s t = containsAnyLoop s' t' := containsAnyLoop_perm s s' t t' hs ht
+
+/-- `a in [members]`: result and error kind are independent of the order in which the set yields its
+    members (the converted members go into a hash set; `entityInSet` is an existential) -/
+theorem C14_in_order_indep (env : Env) (a : UID) (xs xs' : List Value) (hp : xs.Perm xs') :
+    doIn env a (.set xs) = doIn env a (.set xs') := doIn_set_perm env a xs xs' hp
+
+/-- `in` does not depend on the order in which the parents of an entity are enumerated (both forms) -/
+theorem C14_in_parent_order_indep (es es' : Entities)
+    (h : ∀ u, (es.get u).isSome = (es'.get u).isSome ∧
+      ∀ d d', es.get u = some d → es'.get u = some d' → ∀ p, p ∈ d.parents ↔ p ∈ d'.parents)
+    (a : UID) :
+    (∀ b, entityInOne es a b = entityInOne es' a b) ∧ (∀ S, entityInSet es a S = entityInSet es' a S) := by
+  have h1 : ∀ x b, entityInOne es x b = entityInOne es' x b := fun x b => C03_parent_order_irrelevant es es' h x b
+  have hR : ∀ x b, Reach es x b ↔ Reach es' x b := by
+    intro x b
+    rw [← C03_entityInOne_correct, ← C03_entityInOne_correct, h1]
+  refine ⟨h1 a, fun S => ?_⟩
+  obtain ⟨r, hr⟩ := C03_entityInSet_total es a S
+  obtain ⟨r', hr'⟩ := C03_entityInSet_total es' a S
+  have c1 := C03_entityInSet_correct es a S
+  have c2 := C03_entityInSet_correct es' a S
+  rw [hr] at c1; rw [hr'] at c2
+  rw [hr, hr']
+  have : r = true ↔ r' = true := by
+    simp only [Option.some.injEq] at c1 c2
+    rw [c1, c2]
+    constructor <;> rintro ⟨b, hb, hx⟩
+    · exact ⟨b, hb, (hR a b).mp hx⟩
+    · exact ⟨b, hb, (hR a b).mpr hx⟩
+  cases r <;> cases r' <;> simp_all
+
+/-- FULL statement (false today): the error message of `a in [members]` is order-independent.
+    Proved: it is when all non-entity members have the same type. -/
+theorem C14_in_set_message_order_indep_partial (xs xs' : List Value) (hp : xs.Perm xs')
+    (hsame : ∀ x ∈ xs, ∀ y ∈ xs, (∀ t i, x ≠ .entity t i) → (∀ t i, y ≠ .entity t i) → x.kind = y.kind) :
+    inSetFirstBad xs = inSetFirstBad xs' := inSetFirstBad_perm_of_sameKind xs xs' hp hsame
+
+/-- `principal in [1, "x"]`: the message says `got long` or `got string` depending on the order. -/
+theorem C14_in_set_message_counterexample :
+    ∃ xs xs' : List Value, xs.Perm xs' ∧ inSetFirstBad xs ≠ inSetFirstBad xs' :=
+  inSetFirstBad_perm_counterexample
+
+/-! ### Encoders -/
+
+/-- An encoder that collects the keys of a Go map in iteration order, sorts them with a total,
+    transitive, antisymmetric order and renders them produces the same output for every iteration order. -/
+theorem C14_encoders_canonical {κ : Type} (le : κ → κ → Bool) (hle : LinOrd le) (render : κ → String)
+    (keys₁ keys₂ : List κ) (hp : keys₁.Perm keys₂) :
+    encodeSorted le render keys₁ = encodeSorted le render keys₂ := by
+  unfold encodeSorted; rw [sortBy_eq_of_perm hle hp]
+
+/-- string-keyed encoders: `PolicySet.MarshalCedar/JSON`, `Record.MarshalCedar/JSON`, `EntityMap.MarshalJSON`,
+    schema printers -/
+theorem C14_marshalByStringKey_canonical (render : String → String) (k₁ k₂ : List String) (hp : k₁.Perm k₂) :
+    marshalByStringKey render k₁ = marshalByStringKey render k₂ :=
+  C14_encoders_canonical strLe strLe_linOrd render k₁ k₂ hp
+
+/-- `Set.MarshalCedar/JSON` (slot numbers) -/
+theorem C14_marshalSet_canonical (render : Nat → String) (k₁ k₂ : List Nat) (hp : k₁.Perm k₂) :
+    marshalSetOrd render k₁ = marshalSetOrd render k₂ :=
+  C14_encoders_canonical natLe natLe_linOrd render k₁ k₂ hp
+
+/-- `Entity.MarshalJSON` (parents by type, then id) -/
+theorem C14_marshalParents_canonical (render : UID → String) (k₁ k₂ : List UID) (hp : k₁.Perm k₂) :
+    marshalParentsOrd render k₁ = marshalParentsOrd render k₂ :=
+  C14_encoders_canonical uidLe uidLe_linOrd render k₁ k₂ hp
+
+/-- the generic sort is the one C20's policy-set model uses: `PolicySet.MarshalCedar` emits the ids in
+    the same order whatever order the map yielded them in -/
+theorem C14_marshal_policyset_canonical (s₁ s₂ : PS) (hp : s₁.Perm s₂) : s₁.ids = s₂.ids := by
+  unfold PS.ids
+  rw [sortIds_eq_sortBy, sortIds_eq_sortBy]
+  exact sortBy_eq_of_perm strLe_linOrd (hp.map _)
+
+/-! ### JSON decode → encode -/
+
+/-- FULL statement (false today): `σ.Perm τ → cedarRecordKeyOrder (decodeRecordJsonOrd σ) = cedarRecordKeyOrder (decodeRecordJsonOrd τ)`.
+    The JSON decoder ranges over a Go map; the Cedar text printed afterwards lists the entries in that order. -/
+theorem C14_decode_encode_counterexample :
+    ∃ σ τ : List (String × Expr), σ.Perm τ ∧ (σ.map (·.1)).Nodup ∧
+      cedarRecordKeyOrder (decodeRecordJsonOrd σ) ≠ cedarRecordKeyOrder (decodeRecordJsonOrd τ) :=
+  ⟨[("a", .lit (.long 1)), ("b", .lit (.long 2))], [("b", .lit (.long 2)), ("a", .lit (.long 1))],
+    List.Perm.swap _ _ _, by decide, by decide⟩
+
+/-- …and the same for annotations -/
+theorem C14_decode_encode_annotations_counterexample :
+    ∃ (p : Policy) (σ τ : List (String × String)), σ.Perm τ ∧ (σ.map (·.1)).Nodup ∧
+      cedarAnnotationOrder (decodeAnnotationsOrd p σ) ≠ cedarAnnotationOrder (decodeAnnotationsOrd p τ) :=
+  ⟨{ effect := .permit }, [("a", "1"), ("b", "2")], [("b", "2"), ("a", "1")], List.Perm.swap _ _ _, by decide, by decide⟩
+
+/-- decode → `MarshalJSON` IS deterministic: the encoder puts the entries back into a Go map and
+    `encoding/json` sorts map keys -/
+theorem C14_decode_encode_json_deterministic (σ τ : List (String × Expr)) (hp : σ.Perm τ) :
+    jsonRecordKeyOrder (decodeRecordJsonOrd σ) = jsonRecordKeyOrder (decodeRecordJsonOrd τ) := by
+  unfold jsonRecordKeyOrder decodeRecordJsonOrd
+  exact sortBy_eq_of_perm strLe_linOrd (hp.map _)
+
+theorem C14_decode_encode_json_annotations_deterministic (p : Policy) (σ τ : List (String × String)) (hp : σ.Perm τ) :
+    jsonAnnotationOrder (decodeAnnotationsOrd p σ) = jsonAnnotationOrder (decodeAnnotationsOrd p τ) := by
+  unfold jsonAnnotationOrder decodeAnnotationsOrd
+  exact sortBy_eq_of_perm strLe_linOrd (hp.map _)
+
+/-- whatever order the decoder produced, the decoded record literal evaluates alike (up to which error) -/
+theorem C14_decoded_record_evaluates_alike_partial (σ τ : List (String × Expr)) (env : Env) (hp : σ.Perm τ)
+    (hk : (σ.map (·.1)).Nodup) :
+    Res.sim (eval (decodeRecordJsonOrd σ) env) (eval (decodeRecordJsonOrd τ) env) :=
+  evalRecord_perm_sim σ τ env hp hk
+
+/-- FULL statement (false today): a set rebuilt from the same members in another order renders alike.
+    `coerceSet` (decode of entity JSON with a schema) feeds `NewSet` in Go map order; two members with the
+    same hash swap their slots, hence their place in the JSON text. -/
+theorem C14_coerceSet_order_counterexample :
+    ∃ σ τ : List (Nat × String), σ.Perm τ ∧ coerceSetOrd σ ≠ coerceSetOrd τ :=
+  ⟨[(3, "{0.0001,0.0002}"), (3, "{0.0003}")], [(3, "{0.0003}"), (3, "{0.0001,0.0002}")], List.Perm.swap _ _ _, by decide +kernel⟩
+
+/-- without collisions the rendering order is the hash order, whatever the insertion order (two members) -/
+example : coerceSetOrd [(5, "a"), (3, "b")] = coerceSetOrd [(3, "b"), (5, "a")] := by decide +kernel
+
+/-! ### Non-vacuity -/
+
+-- a permuted, duplicate-free key list is sorted back to the same list
+example : encodeSorted strLe id ["policy2", "policy10", "a"] = ["a", "policy10", "policy2"] := by decide +kernel
+example : sortBy uidLe [("User", "b"), ("Group", "z"), ("User", "a")] = [("Group", "z"), ("User", "a"), ("User", "b")] := by decide +kernel
+-- a record literal with one erroring entry satisfies the same-kind hypothesis (and the nodup one)
+example : ((([("a", Expr.lit (.long 1)), ("b", .access (.var .context) "m")] : List (String × Expr)).map (·.1)).Nodup) := by decide
+-- a schedule that really permutes
+example : Resched (.record [("a", .lit (.long 1)), ("b", .lit (.long 2))]) (.record [("b", .lit (.long 2)), ("a", .lit (.long 1))]) := by
+  simp only [Resched]
+  exact ⟨[("a", .lit (.long 1)), ("b", .lit (.long 2))], _, rfl, by simp [ReschedKVs, Resched], List.Perm.swap _ _ _, by decide⟩
+-- containsAll over a permuted pair of sets
+example : containsAllLoop [.long 1, .long 2, .long 3] [.long 3, .long 1] = true := by decide +kernel
+example : inSetFirstBad [.entity "A" "a", .long 1] = some "long" := by decide
 
 end CedarGo
